@@ -896,13 +896,47 @@ def _execute(plan, out, store, decoys_in, top, real, report_plan=None):
                     opened_k = [top] + opened_k
                 w.end_op("ok" if ok_["ok"] else ok_["cls"])
                 out["evaluations"] += 1
-                if not ops.same_outcome(ok_, oc) or opened_k != opened:
+                # a chain that exhausts the interpreter's stack (KF-4) is
+                # cut off wherever the stack happens to end, which depends
+                # on how many frames the caller already used: the open
+                # history of such a refused load is not compared
+                stack_cut = (not oc["ok"] and not ok_["ok"] and all(
+                    "nested too deeply" in (o.get("msg") or "")
+                    for o in (oc, ok_)))
+                if not ops.same_outcome(ok_, oc) or (
+                        opened_k != opened and not stack_cut):
                     violation("same-loader-differs",
                               "load %d of the cut layout through one "
                               "ConfigLoader gives %s (opened %r); "
                               "ZConfig.loadConfig gave %s (opened %r)"
                               % (k, ops.brief(ok_), opened_k, ops.brief(oc),
                                  opened))
+        if not faults and real:
+            # the process's current directory has been removed (a service
+            # whose start directory was cleaned up): a layout named by
+            # absolute URLs does not depend on it
+            gone = os.path.join(real[0], "gone-cwd")
+            os.mkdir(gone)
+            os.chdir(gone)
+            os.rmdir(gone)
+            try:
+                w.begin_op("load-cut-cwd-removed")
+                if plan.get("top_in_memory"):
+                    og = ops.config_outcome(lambda: ZConfig.loadConfigFile(
+                        schema, io.StringIO(cut_store.get(top, "")), top))
+                else:
+                    og = ops.config_outcome(
+                        lambda: ZConfig.loadConfig(schema, top))
+                w.end_op("ok" if og["ok"] else og["cls"])
+                out["evaluations"] += 1
+                probe("cut-layout-loaded-with-cwd-removed")
+                if not ops.same_outcome(og, oc):
+                    violation("cwd-removed-differs",
+                              "with the current directory removed the cut "
+                              "layout gives %s; before: %s"
+                              % (ops.brief(og), ops.brief(oc)))
+            finally:
+                os.chdir(real[1])
         out["log"].append("inlined: %s" % ops.brief(oi))
         out["log"].append("cut: %s ; opened %r ; expected %r"
                           % (ops.brief(oc), opened, expected))
